@@ -21,7 +21,12 @@
 static inline int mzd_compare_rows_revlex(const mzd_t *A, rci_t a, rci_t b) {
   word const *rowa = mzd_row_const(A, a);
   word const *rowb = mzd_row_const(A, b);
-  for (wi_t j = A->width - 1; j >= 0; j--) {
+  /* the last word is compared under the column mask: bits beyond the last column are not entries */
+  word const mask_end = A->high_bitmask;
+  wi_t const last     = A->width - 1;
+  if ((rowa[last] & mask_end) < (rowb[last] & mask_end)) return 0;
+  if ((rowa[last] & mask_end) > (rowb[last] & mask_end)) return 1;
+  for (wi_t j = last - 1; j >= 0; j--) {
     if (rowa[j] < rowb[j]) return 0;
     if (rowa[j] > rowb[j]) return 1;
   }
